@@ -75,7 +75,7 @@ pub fn stark_commit<Layout: LayoutTrait>(
             &&& c.interaction_after_composition@ == z                                              // [C01,C02,C08:oods-point-after-composition-root]
             &&& is_powers(fv(c.interaction_after_oods@), 1, alpha2, (Layout::MASK_SIZE + Layout::CONSTRAINT_DEGREE) as nat) // [C01,C02,C08,C16:deep-coefficients-are-powers-of-the-challenge-after-the-oods-values]
             // ---- out-of-domain check
-            &&& c.oods_values@ == u.oods_values@ && u.oods_values@.len() == Layout::MASK_SIZE + Layout::CONSTRAINT_DEGREE // [C01,C02:commitment-keeps-the-checked-oods-vector]
+            &&& c.oods_values@ == u.oods_values@ && u.oods_values@.len() == Layout::MASK_SIZE + Layout::CONSTRAINT_DEGREE // [C01,C02,C18:commitment-keeps-the-checked-oods-vector]
             &&& (exists|coeffs: Seq<nat>| is_powers(coeffs, 1, alpha, Layout::N_CONSTRAINTS as nat)
                     && oods_consistent::<Layout>(fv(u.oods_values@), &c.traces.interaction_elements, public_input, coeffs, z, stark_domains.trace_domain_size@, stark_domains.trace_generator@)) // [C01,C02,C16:trace-and-composition-agree-at-the-oods-point-with-coefficients-alpha^i]
             // ---- FRI commitment
